@@ -5,6 +5,7 @@ import Carquet.Proofs.Zigzag
 import Carquet.Proofs.BitpackTails
 import Carquet.Proofs.RleEncoder
 import Carquet.Proofs.RleLevels
+import Carquet.Proofs.RleLevelsF58
 import Carquet.Proofs.RleSpecDecoder
 import Carquet.Proofs.RleSpecEncoder
 /-
